@@ -142,7 +142,19 @@ def scope_reachability(chk: Check) -> None:
     pc = [c for c in calls_in_func(cs, 'ProcessCallback')]
     ok = len(pc) == 1 and len(pc[0].args) >= 2 and norm(pc[0].args[1]) == 'self._run_task'
     chk.ob('SCOPE-reachability', cs, ok, 'call_soon runs the callback through _run_task (inside the scope)', node=pc[0] if pc else None, kind='callback-through-run-task')
-    first = any(isinstance(n_, ast.Assign) and norm(n_.targets[0]) == 'args' and norm(n_.value).startswith('(callback,)') for n_ in ast.walk(cs.node))
+    from ..rules import Resolver
+    first = False
+    if pc and len(pc[0].args) >= 3:
+        a3 = Resolver(cs).expand(pc[0].args[2])
+        cb = cs.params[1]
+        # (callback,) + args   |   (callback, *args)   -- also when bound to a local first (possibly the rebound ``args``)
+        if isinstance(a3, ast.Name):
+            vals = [n_.value for n_ in ast.walk(cs.node) if isinstance(n_, ast.Assign) and norm(n_.targets[0]) == a3.id]
+            a3 = vals[0] if len(vals) == 1 else a3
+        if isinstance(a3, ast.BinOp) and isinstance(a3.op, ast.Add) and isinstance(a3.left, ast.Tuple) and a3.left.elts and norm(a3.left.elts[0]) == cb:
+            first = True
+        if isinstance(a3, ast.Tuple) and a3.elts and norm(a3.elts[0]) == cb:
+            first = True
     chk.ob('SCOPE-reachability', cs, first, 'the user callback is the first argument handed to _run_task', kind='callback-first-arg')
     rt = prog.func('processes.Process._run_task')
     sites = [c for c, t in chk.ctx.calls.func_calls(rt) if t.uncontrolled]
